@@ -1,9 +1,14 @@
 package c03
 
 import (
+	"context"
 	"os"
 	"strings"
 	"testing"
+
+	"github.com/specterops/dawgs/cypher/models/cypher"
+	"github.com/specterops/dawgs/cypher/models/pgsql/optimize"
+	"github.com/specterops/dawgs/cypher/models/pgsql/translate"
 
 	"verif/xlate"
 )
@@ -25,6 +30,27 @@ func TestC03Show(t *testing.T) {
 		if err != nil {
 			t.Logf("%s\n  TRANSLATE: %v", q, err)
 			continue
+		}
+		if os.Getenv("VERIF_SHOW_UNOPT") != "" {
+			raw, err := translate.TranslateWithPlan(context.Background(), optimize.Plan{Query: cypher.Copy(model)}, newMapper(), nil, 0)
+			if err == nil {
+				sql, _ := translate.Translated(raw)
+				t.Logf("UNOPT SQL: %s", sql)
+			} else {
+				t.Logf("UNOPT: %v", err)
+			}
+		}
+		if os.Getenv("VERIF_SHOW_UNOPT") != "" {
+			var rules, lows []string
+			for _, r := range tr.Raw.Optimization.Rules {
+				if r.Applied {
+					rules = append(rules, r.Name)
+				}
+			}
+			for _, l := range tr.Raw.Optimization.Lowerings {
+				lows = append(lows, l.Name)
+			}
+			t.Logf("RULES applied: %v  LOWERINGS: %v", rules, lows)
 		}
 		v := judgeSQL(tr.SQL, tr.Params, isUpdating(model))
 		t.Logf("%s\n  SQL: %s\n  PARAMS: %v\n  VERDICT: err=%q skip=%q nt=%v %v", q, tr.SQL, tr.Params, v.err, v.skip, v.nonTrivial, v.classes)
